@@ -79,10 +79,18 @@ func (r *Report) AddReplayed(n int64) {
 	r.mu.Unlock()
 }
 
+// Hot counts a replayed case whose prediction is not byte-comparable (see Ctx.Expect).
+func (r *Report) Hot() {
+	r.mu.Lock()
+	n, _ := r.Extra["not_byte_comparable"].(int)
+	r.Extra["not_byte_comparable"] = n + 1
+	r.mu.Unlock()
+}
+
 func (r *Report) DriftAt(msg string) {
 	r.mu.Lock()
 	r.Drift++
-	if len(r.DriftEx) < 5 {
+	if len(r.DriftEx) < 12 {
 		r.DriftEx = append(r.DriftEx, msg)
 	}
 	r.mu.Unlock()
